@@ -29,7 +29,7 @@ def check(an, rep, tier):
         'distribution of the random entries, "stays of order one".')
     rep.assumptions = pre('PRE-D', 'PRE-DOC', 'PRE-NUM')
     rep.trusted = ['NumPy model']
-    ds = (2, 3) if tier == 'quick' else (2, 3, 4)
+    ds = (2, 3) if tier == 'quick' else (2, 3, 4, 5)
     ctors = ['tensors.const', 'tensors.delta', 'tensors.poly', 'tensors.rand',
              'tensors.rand_custom', 'tensors.rand_norm', 'tensors.rand_stab',
              'vectors.vector_delta', 'matrices.matrix_delta']
@@ -49,16 +49,20 @@ def check(an, rep, tier):
                     for k, c in enumerate(rv.items[:-1]):
                         want = Poly.sym('r') if rk == 'int:r' else \
                             Poly.sym('r.r%d' % (k + 1))
-                        if not same(c.dims[2], want):
-                            st, detail = 'violation', \
+                        from .common import cmp3
+                        c3 = cmp3(c.dims[2], want)
+                        if c3 != 'ok' and st != 'violation':
+                            st, detail = c3, \
                                 'bond %d is %r, requested %r' % (
                                     k + 1, c.dims[2], want)
                 if st == 'ok' and q in ('tensors.const', 'tensors.delta',
                                         'tensors.poly'):
                     want = 1 if q != 'tensors.poly' else 2
                     for k, c in enumerate(rv.items[:-1]):
-                        if c.dims[2].as_int() != want:
-                            st, detail = 'violation', 'bond %d is %r, ' \
+                        from .common import cmp3
+                        c3 = cmp3(c.dims[2], Poly.const(want))
+                        if c3 != 'ok' and st != 'violation':
+                            st, detail = c3, 'bond %d is %r, ' \
                                 'expected %d' % (k + 1, c.dims[2], want)
                 rep.add('S-ret', q, 'return path %d of %s' % (j, r.tag()), st,
                         detail)
